@@ -18,6 +18,7 @@ import (
 	"sort"
 	"strings"
 	"syscall"
+	"time"
 	"unsafe"
 
 	"github.com/cockroachdb/errors"
@@ -27,6 +28,7 @@ import (
 	"github.com/cockroachdb/errors/exthttp"
 	"github.com/cockroachdb/errors/oserror"
 	"github.com/cockroachdb/redact"
+	"github.com/getsentry/sentry-go"
 	"github.com/gogo/protobuf/types"
 	pkgerrors "github.com/pkg/errors"
 	"google.golang.org/grpc/codes"
@@ -66,6 +68,12 @@ type Acc struct {
 	Grpc      []string     `json:"grpc"`
 	// types found by HasType along the cause chain (catalogue names, sorted)
 	HasType []string `json:"hastype"`
+	// NotInDomain against NoDomain, NamedDomain(w1), NamedDomain(w2)
+	NotIn []bool `json:"notin"`
+	// HasInterface(e, (*interface{ ErrorHint() string })(nil))
+	HasHinter bool `json:"hasHinter"`
+	// If(e, pred) with pred answering the detail of a layer that has ErrorDetail(): zero or one string
+	IfDetail [][]string `json:"ifDetail"`
 	// relational observations (compared before / after hops only)
 	OS     []bool   `json:"os"`     // oserror.IsPermission / IsExist / IsNotExist / IsTimeout
 	Frames []string `json:"frames"` // per layer with a reportable stack: hash of its frames' function names and lines
@@ -228,6 +236,19 @@ func AccOf(e error) *Acc {
 		}
 	}
 	sort.Strings(a.HasType)
+	a.NotIn = []bool{errors.NotInDomain(e, errors.NoDomain),
+		errors.NotInDomain(e, errors.NamedDomain(tok.Str([]string{"w1"}))),
+		errors.NotInDomain(e, errors.NamedDomain(tok.Str([]string{"w2"})))}
+	a.HasHinter = errors.HasInterface(e, (*interface{ ErrorHint() string })(nil))
+	a.IfDetail = [][]string{}
+	if d, ok := errors.If(e, func(err error) (interface{}, bool) {
+		if w, ok := err.(interface{ ErrorDetail() string }); ok {
+			return w.ErrorDetail(), true
+		}
+		return nil, false
+	}); ok {
+		a.IfDetail = append(a.IfDetail, tok.Lex(d.(string)))
+	}
 	a.OS = []bool{oserror.IsPermission(e), oserror.IsExist(e), oserror.IsNotExist(e), oserror.IsTimeout(e)}
 	a.Frames = []string{}
 	for _, n := range VisNodes(e) {
@@ -489,7 +510,10 @@ func OutsOf(e error) *Outs {
 	ev, extras := errors.BuildSentryReport(e)
 	b1, _ := json.Marshal(ev)
 	b2, _ := json.Marshal(extras)
-	o.Report = wordSet(string(b1), string(b2))
+	// ... and what ReportError actually hands to the transport
+	sev, _, _ := Sent(e)
+	b3, _ := json.Marshal(sev)
+	o.Report = wordSet(string(b1), string(b2), string(b3))
 	return o
 }
 
@@ -654,6 +678,64 @@ type Report struct {
 	NStack     int        `json:"nstack"`     // layers with a reportable stack trace
 	Types      [][]string `json:"types"`      // "error types" extra: [type name, family or *, extension] per line
 	NilNothing bool       `json:"nilNothing"` // BuildSentryReport(nil) returns nothing
+	SentOK     bool       `json:"sentOK"`     // ReportError hands exactly this report (message, exceptions, extras) to the transport, once, with a redacted server name
+}
+
+// capT is a Sentry transport that keeps the events instead of sending them.
+type capT struct{}
+
+var sent []*sentry.Event
+
+func (capT) Flush(time.Duration) bool       { return true }
+func (capT) Configure(sentry.ClientOptions) {}
+func (capT) SendEvent(ev *sentry.Event)     { sent = append(sent, ev) }
+
+func init() {
+	client, err := sentry.NewClient(sentry.ClientOptions{
+		Transport:    capT{},
+		Integrations: func([]sentry.Integration) []sentry.Integration { return nil },
+	})
+	if err != nil {
+		panic("harness: sentry client: " + err.Error())
+	}
+	sentry.CurrentHub().BindClient(client)
+}
+
+// Sent runs errors.ReportError and returns the event the transport received.
+func Sent(e error) (ev *sentry.Event, id string, n int) {
+	sent = sent[:0]
+	id = errors.ReportError(e)
+	n = len(sent)
+	if n > 0 {
+		ev = sent[0]
+	}
+	return ev, id, n
+}
+
+func sentOK(e error, ev *sentry.Event, extras map[string]interface{}) bool {
+	got, id, n := Sent(e)
+	if n != 1 || id == "" || string(got.EventID) != id {
+		return false
+	}
+	if got.Message != ev.Message || got.ServerName != "<redacted>" || got.Tags["report_type"] != "error" {
+		return false
+	}
+	b1, _ := json.Marshal(got.Exception)
+	b2, _ := json.Marshal(ev.Exception)
+	if string(b1) != string(b2) {
+		return false
+	}
+	for k, v := range extras {
+		if !reflect.DeepEqual(got.Extra[k], v) {
+			return false
+		}
+	}
+	for k, v := range ev.Extra {
+		if !reflect.DeepEqual(got.Extra[k], v) {
+			return false
+		}
+	}
+	return true
 }
 
 func framesKey(st *errors.ReportableStackTrace) string {
@@ -676,6 +758,7 @@ func ReportOf(e error) *Report {
 	if ev == nil {
 		return r
 	}
+	r.SentOK = sentOK(e, ev, extras)
 	msg := ev.Message
 	file, line, _, ok := errors.GetOneLineSource(e)
 	r.HasSource = ok
